@@ -147,6 +147,30 @@ func (e *Encoder) Write(indexPath string) error {
 	base := indexPath[:len(indexPath)-len(ext)]
 
 	realIndexPath := base + ".par"
+
+	// Don't overwrite any of the data files (which would happen
+	// e.g. if a previous run's output files are passed in as data
+	// files).
+	outputPaths := []string{realIndexPath}
+	for i := range e.parityData {
+		outputPaths = append(outputPaths, fmt.Sprintf("%s.p%02d", base, i+1))
+	}
+	for _, outputPath := range outputPaths {
+		absOutputPath, err := filepath.Abs(outputPath)
+		if err != nil {
+			return err
+		}
+		for _, filePath := range e.filePaths {
+			absFilePath, err := filepath.Abs(filePath)
+			if err != nil {
+				return err
+			}
+			if absFilePath == absOutputPath {
+				return errors.New("output file would overwrite data file " + filePath)
+			}
+		}
+	}
+
 	err = e.fileIO.WriteFile(realIndexPath, indexVolumeBytes)
 	e.delegate.OnVolumeFileWrite(0, len(e.parityData), realIndexPath, len(indexVolume.data), len(indexVolumeBytes), err)
 	if err != nil {
